@@ -362,32 +362,32 @@ EXTRA = {
             'None` test; neighbour and correlation lists are zipped in '
             'lock-step; zero norms are replaced on a test of the norm. Settings the property depends on are bound at every call whose callee would otherwise fall back to a default. The centroids voted on divide by a cell count floored at one. A run setting (iteration count, factor) is never replaced on a condition inside the pipeline. Aggregated vote totals kept in a chosen integer type are sized from a sum of the summands. Kernel inputs are (data - row mean) / sqrt(sum((data - row mean)^2)), compared as polynomials (R-ARITH/pearson). Aggregate_votes reads the vote table at positions that do not derive from the correlation table (R-PROV/votes-where-cast). Row totals are accumulated in a widened type and the CPM formula of C07 is shared; bootstrap_iteration reaches the election as configured (R-FWD/config-as-requested).'),
     'C04': ('shared random stream modelled as an order-sensitive '
-            'accumulator; parameter forwarding along the call chain; census of worker-count special cases; kind agreement of chosen integer types in the worker code; order-dependent overwrites in the taint engine; frozen-order labels and tree-constructor sink in the taint engine; symbolic identity of forwarded configuration values',
+            'accumulator; parameter forwarding along the call chain; census of worker-count special cases; kind agreement of chosen integer types in the worker code; order-dependent overwrites in the taint engine; frozen-order labels and tree-constructor sink in the taint engine; symbolic identity of forwarded configuration values; binary search modelled as order-sensitive',
             'Also: a draw from a shared generator inside a loop whose '
             'visiting order carries an order label yields a labelled '
             'value; key order of nested dicts is tracked; numeric '
             'accumulation in a labelled visiting order (also inside a '
             'callee, also through lists of lists) is a labelled value; '
             'selecting a loop element under a test in a labelled loop '
-            'labels the selection. Settings the property depends on are bound at every call whose callee would otherwise fall back to a default. The worker count is tested against a constant only at the two confirmed serial-or-parallel sites. An integer type a worker chooses from its chunk is sized from the largest stored value when it holds values and from the number of entries when it holds running counts. The taint engine labels a store into a table that outlives a loop with labelled visiting order when the position is not given by the loop element (order-dependent overwrite); writes through an HDF5 handle opened for writing are sinks. A list whose order was frozen from a set must be sorted before a TaxonomyTree is built from it (taint: frozen order); n_processors and chunk_size reach the election as configured.'),
+            'labels the selection. Settings the property depends on are bound at every call whose callee would otherwise fall back to a default. The worker count is tested against a constant only at the two confirmed serial-or-parallel sites. An integer type a worker chooses from its chunk is sized from the largest stored value when it holds values and from the number of entries when it holds running counts. The taint engine labels a store into a table that outlives a loop with labelled visiting order when the position is not given by the loop element (order-dependent overwrite); writes through an HDF5 handle opened for writing are sinks. A list whose order was frozen from a set must be sorted before a TaxonomyTree is built from it (taint: frozen order); n_processors and chunk_size reach the election as configured. Positions returned by a binary search depend on the arrangement of the array searched (taint).'),
     'C05': ('write-cursor discipline, loop-coverage must-pass, exact '
-            'tiling of chunked loops, index-space typing of numpy code; permutation pairing of sorted reads; parameter forwarding along the call chain; request-order dependence of the readers; buffer-window use; sibling agreement of the returns of range readers; placement by column index; member-kind agreement of borrowed element types; order-free summaries of a sorted request',
+            'tiling of chunked loops, index-space typing of numpy code; permutation pairing of sorted reads; parameter forwarding along the call chain; request-order dependence of the readers; buffer-window use; sibling agreement of the returns of range readers; placement by column index; member-kind agreement of borrowed element types; order-free summaries of a sorted request; extent provenance of tiling loops over several arrays',
             'Also decides: write cursors of the assembly loops are used, '
             'advanced and recorded in every iteration; chunked loops tile '
             'their axis (window = step, clamp = bound, step and bound on '
             'the same axis); in the transposition, slices and gathers are '
             'applied in the index space they were computed in; pointer '
-            'values are never scatter positions. Rows read in sorted order are put back with the matching permutation, once, and before every return. Settings the property depends on are bound at every call whose callee would otherwise fall back to a default. A reader answers from the requested row list itself, not only from its sorted / merged form. A re-used read buffer is consumed through the part just filled. CSR range readers return re-based pointers on every path and densify by column index. An array allocated with another array\'s element type is used as the same kind of sparse-matrix member (values vs positions). Single elements and the length of a request the function sorts are order-free summaries (R-PERM/request-order).'),
+            'values are never scatter positions. Rows read in sorted order are put back with the matching permutation, once, and before every return. Settings the property depends on are bound at every call whose callee would otherwise fall back to a default. A reader answers from the requested row list itself, not only from its sorted / merged form. A re-used read buffer is consumed through the part just filled. CSR range readers return re-based pointers on every path and densify by column index. An array allocated with another array\'s element type is used as the same kind of sparse-matrix member (values vs positions). Single elements and the length of a request the function sorts are order-free summaries (R-PERM/request-order). A tiling loop over several arrays takes its extent from the array of the current turn (R-TILE/extent-of-the-array).'),
     'C07': ('ordering-key provenance; column-gather detection on symbolic '
-            'terms; parameter forwarding along the call chain; dtype idioms of the normalisation; integer-width rule (shared with C16); column selection by name; rational normal form of the CPM conversion; symbolic provenance of the row chunk size; symbolic identity of forwarded configuration values; accumulator type of the row totals',
+            'terms; parameter forwarding along the call chain; dtype idioms of the normalisation; integer-width rule (shared with C16); column selection by name; rational normal form of the CPM conversion; symbolic provenance of the row chunk size; symbolic identity of forwarded configuration values; accumulator type of the row totals; rounding quotients in the whole-axis rule',
             'Also decides: no ordering step on the way to the per-parent '
             'index arrays of the marker cache depends on query positions; '
             'the array normalised in the chunk loops has not been cut by '
-            'column; the CPM divisor replaces zero totals only. Settings the property depends on are bound at every call whose callee would otherwise fall back to a default. (in particular the declared normalization). Normalised values are not cast to, or stored in place into, the element type of the raw counts. The integer type chosen by validation is judged from the np.round-ed extremes against both bounds of the type. convert_to_cpm returns 10^6 * data / row total on every path and both conversions take log2 of 1 + that (R-ARITH/cpm). The chunk size handed to the row readers does not depend on the number of gene columns (R-PROV/chunking-independent-of-genes). The declared normalization reaches the election exactly as configured (R-FWD/config-as-requested); row totals are accumulated in a widened type (R-CAP/row-total-accumulator).'),
-    'C08': ('iteration-order provenance of the in-place patching loop; index capacity typing; parameter forwarding along the call chain; guard census of empty-list rejections; column selection by name, in the order asked for; single key expression of the cache group read for a parent; constant propagation over map_to_ensembl for the query name list; symbolic identity of forwarded configuration values; iteration order of the ancestor patching loop',
+            'column; the CPM divisor replaces zero totals only. Settings the property depends on are bound at every call whose callee would otherwise fall back to a default. (in particular the declared normalization). Normalised values are not cast to, or stored in place into, the element type of the raw counts. The integer type chosen by validation is judged from the np.round-ed extremes against both bounds of the type. convert_to_cpm returns 10^6 * data / row total on every path and both conversions take log2 of 1 + that (R-ARITH/cpm). The chunk size handed to the row readers does not depend on the number of gene columns (R-PROV/chunking-independent-of-genes). The declared normalization reaches the election exactly as configured (R-FWD/config-as-requested); row totals are accumulated in a widened type (R-CAP/row-total-accumulator). Rounding quotients count whole windows only (R-TILE/whole-axis).'),
+    'C08': ('iteration-order provenance of the in-place patching loop; index capacity typing; parameter forwarding along the call chain; guard census of empty-list rejections; column selection by name, in the order asked for; single key expression of the cache group read for a parent; constant propagation over map_to_ensembl for the query name list; symbolic identity of forwarded configuration values; iteration order of the ancestor patching loop; element type of cache positions; node identity (rule of C10)',
             'Also decides: parents are patched deepest first; the '
             'unknown-to-reference test is made on the unfiltered marker '
-            'table. Gene positions stored with an explicitly chosen integer type are sized from the list they point into. Settings the property depends on are bound at every call whose callee would otherwise fall back to a default. A rejection for an empty marker list also looks at the number of children. Marker columns are taken from the query by a name-derived fancy index. The marker positions used for a parent are read, on every path, from the cache group keyed by that parent. Without a mapping the query gene names are the var index as read (R-PROV/query-names-as-in-file); min_markers reaches the cache builder as configured. Ancestor lists are added nearest first (R-PROV/ancestors-nearest-first).'),
+            'table. Gene positions stored with an explicitly chosen integer type are sized from the list they point into. Settings the property depends on are bound at every call whose callee would otherwise fall back to a default. A rejection for an empty marker list also looks at the number of children. Marker columns are taken from the query by a name-derived fancy index. The marker positions used for a parent are read, on every path, from the cache group keyed by that parent. Without a mapping the query gene names are the var index as read (R-PROV/query-names-as-in-file); min_markers reaches the cache builder as configured. Ancestor lists are added nearest first (R-PROV/ancestors-nearest-first). Positions-as-stored (with C01); the child-to-parent table is keyed per level (node identity, rule of C10).'),
     'C09': ('loop-coverage must-pass, merge initial value, guard form, '
             'exact tiling; key-space agreement of the dataset tables; parameter forwarding along the call chain; dtype idioms of the statistics; row-position provenance (rule of C10); threshold polynomials of the counting statistics; whole-package edit census of values handed out by tree accessors; rational normal form of moments and CPM; pointer-scatter idiom (rule of C05); index-space agreement of label positions and chunk rows; provenance of the list the output rows are numbered from; provenance of the chunking extent',
             'Also decides: every chunk reaches _process_chunk; merged '
@@ -396,49 +396,49 @@ EXTRA = {
             'per-file state of a worker is refreshed on a test of the '
             'file; files merged by position are compared on their '
             'complete numbering tables. The ABC front end keys its dataset tables by the label as given. Settings the property depends on are bound at every call whose callee would otherwise fall back to a default. Sums and CPM denominators are not cast back to the element type of the raw counts. Rows a tree built from the reference file assigns to leaves are file positions. gt0 / gt1 / ge1 are column counts above 0, above 1 and above 1 - eps. No user of a tree accessor that hands out the tree\'s own container edits it in place. Mean and variance of a node are S / N and (Q - S^2/N)/(N - 1) of the summed statistics (R-ARITH/moments, rule of C11); counts per million are 10^6 * data / row total (R-ARITH/cpm, rule of C07). The sparse readers do not place values by pointer scatter (rule of C05); positions found in the label array of a chunk are positions of the chunk\'s rows (R-SPACE/chunk-row-positions). Output rows are numbered from all leaves of the tree (R-COVER/row-per-leaf). The rows chunked are all rows of the file (R-PROV/row-extent).'),
-    'C10': ('loop-coverage must-pass in the tree builder; must-derive of the leaf pairs; row-position provenance of the h5ad tree builder; unique-insert guard of the release reader; memo keys of module-level caches; sentinel-code gather idiom; truthy-position idiom extended to tables of positions; coercion-free validator predicates',
+    'C10': ('loop-coverage must-pass in the tree builder; must-derive of the leaf pairs; row-position provenance of the h5ad tree builder; unique-insert guard of the release reader; memo keys of module-level caches; sentinel-code gather idiom; truthy-position idiom extended to tables of positions; coercion-free validator predicates; values stored into cached locals',
             'Also decides: the builder records every parent-child link of '
             'every row before validation (no early exit); tables filled '
             'in loops over the levels are keyed by (level, label); memo '
             'keys are complete; zipped lists are in lock-step; the '
-            'release term-table reader records every row. leaves_to_compare answers through get_all_leaf_pairs or a short-cut tested on the parent\'s own children. The rows numbered when a tree is built from an h5ad file are the obs rows as read. Every cell entered into the data-release cell table was first found absent from the whole table. A cache held at module level is keyed by everything its values are computed from. Gathers by pandas category codes are masked on the sign of the codes (R-IDIOM/sentinel-code-gather). A column number fetched with .get() is not tested for truth (R-IDIOM/truthy-position). The validator compares names as stored, without coercion (R-EXH/validator-checks).'),
-    'C13': ('write-cursor discipline, index-space typing, exact tiling; permutation pairing of sorted reads; memo-key completeness of cached readers; HDF5 name typestate; store-advances rule; inverse permutation on every path; widening of index arithmetic; batch-search discipline',
+            'release term-table reader records every row. leaves_to_compare answers through get_all_leaf_pairs or a short-cut tested on the parent\'s own children. The rows numbered when a tree is built from an h5ad file are the obs rows as read. Every cell entered into the data-release cell table was first found absent from the whole table. A cache held at module level is keyed by everything its values are computed from. Gathers by pandas category codes are masked on the sign of the codes (R-IDIOM/sentinel-code-gather). A column number fetched with .get() is not tested for truth (R-IDIOM/truthy-position). The validator compares names as stored, without coercion (R-EXH/validator-checks). What is put into a local that is then cached belongs to the cached value (R-MEMO/key-complete).'),
+    'C13': ('write-cursor discipline, index-space typing, exact tiling; permutation pairing of sorted reads; memo-key completeness of cached readers; HDF5 name typestate; store-advances rule; inverse permutation on every path; widening of index arithmetic; batch-search discipline; re-basing of copied pointer windows',
             'Also decides: cursor discipline of the join / amalgamation '
             'loops, index spaces of the transposition, tiling of all '
-            'chunked loops in the anchored modules. Sorted row reads are un-sorted before every return. A cached reader is keyed by everything it was built from; no HDF5 name is created twice in a group. A slice store in a loop whose source changes moves with the loop. Every return after the sorting of a request passes through a use of the permutation or its inverse. Index arrays are widened before they are multiplied by a size (R-CAP/index-arithmetic-widened); batch searches record before they stop (R-COVER/batch-search).'),
+            'chunked loops in the anchored modules. Sorted row reads are un-sorted before every return. A cached reader is keyed by everything it was built from; no HDF5 name is created twice in a group. A slice store in a loop whose source changes moves with the loop. Every return after the sorting of a request passes through a use of the permutation or its inverse. Index arrays are widened before they are multiplied by a size (R-CAP/index-arithmetic-widened); batch searches record before they stop (R-COVER/batch-search). Pointer windows are re-based when copied (R-SAMEVAL/pointer-window-rebased).'),
     'C15': ('producer/consumer agreement of CSV column names, '
-            'loop-coverage; shared-mutable idiom; memo-key completeness of name look-ups; provenance of the embedded marker table; writer census of the directly_assigned flag; agreement of the keys the HDF5 writer requires with what the caller leaves in the blob; neutral datasets of the codec; edit census of the live configuration; reaching-definition alias classes of records in the output writers; re-order rule of C01',
+            'loop-coverage; shared-mutable idiom; memo-key completeness of name look-ups; provenance of the embedded marker table; writer census of the directly_assigned flag; agreement of the keys the HDF5 writer requires with what the caller leaves in the blob; neutral datasets of the codec; edit census of the live configuration; reaching-definition alias classes of records in the output writers; re-order rule of C01; symbolic identity of n_assignments (rules of C03)',
             'Also decides: the confidence-column rename spells names as '
             'blob_to_df builds them; every cell gets a CSV row; name '
             'lookups are keyed by (level, label); the CSV is written '
-            'with the stored tree. No per-level table is built from one shared mutable object. Readable names memoised on the tree are keyed by level as well as label. The embedded marker table is enumerated from the tree searched. The flag the HDF5 output stores once per level is written uniformly for all cells of a level. Every key whose absence suppresses the HDF5 results is stored by the mapping step and still in the blob when the writer is called; no record key is restored from a dataset the writer fills from nothing. The live configuration is not edited after its copy for the record was taken (R-SAMEVAL/config-as-recorded). The writers do not edit the records (R-ALIAS/records-read-only); the re-order rule of C01 is shared.'),
-    'C16': ('exact tiling of the scanning loops, lookup provenance; must-pass-through of the mapper call; parameter forwarding along the call chain; abs-of-extremum idiom; HDF5 name typestate; integer-width rule; regex-AST check of the Ensembl pattern; content-independence of piecewise copies; must-pass-through of the validation call',
+            'with the stored tree. No per-level table is built from one shared mutable object. Readable names memoised on the tree are keyed by level as well as label. The embedded marker table is enumerated from the tree searched. The flag the HDF5 output stores once per level is written uniformly for all cells of a level. Every key whose absence suppresses the HDF5 results is stored by the mapping step and still in the blob when the writer is called; no record key is restored from a dataset the writer fills from nothing. The live configuration is not edited after its copy for the record was taken (R-SAMEVAL/config-as-recorded). The writers do not edit the records (R-ALIAS/records-read-only); the re-order rule of C01 is shared. The election keeps exactly the configured number of candidates (rules of C03), which is what the HDF5 writer sizes its arrays from.'),
+    'C16': ('exact tiling of the scanning loops, lookup provenance; must-pass-through of the mapper call; parameter forwarding along the call chain; abs-of-extremum idiom; HDF5 name typestate; integer-width rule; regex-AST check of the Ensembl pattern; content-independence of piecewise copies; must-pass-through of the validation call; extent provenance of tiling loops over several arrays',
             'Also decides: min/max, integrality and rounding scans tile '
             'their matrix exactly; gene identifiers are looked up as '
             'given and clipped afterwards; every window of a rounding '
-            'loop is written. Every verdict of the gene renaming step is given after the mapper was consulted. Settings the property depends on are bound at every call whose callee would otherwise fall back to a default. Integrality tests take the largest absolute deviation; no HDF5 name is created twice in a group (finding F8). The integer type is chosen from the np.round-ed extremes against both bounds of the type. The Ensembl pattern has a literal dot as version separator and is applied with fullmatch. Piecewise copies are not filtered by the content just read (R-COVER/copy-not-filtered-by-content). Every return of validate_h5ad follows the call of _validate_h5ad and returns its verdict (R-MUST/validation-runs).'),
-    'C17': ('back-fill provenance (shared with C01); parameter forwarding along the call chain; tree / parent-list agreement; superset tolerance of per-level options; HDF5 codec field map (rule of C15); provenance of the arguments of tree queries in the marker reconciliation; reaching definitions of the table the flatten union walks',
+            'loop is written. Every verdict of the gene renaming step is given after the mapper was consulted. Settings the property depends on are bound at every call whose callee would otherwise fall back to a default. Integrality tests take the largest absolute deviation; no HDF5 name is created twice in a group (finding F8). The integer type is chosen from the np.round-ed extremes against both bounds of the type. The Ensembl pattern has a literal dot as version separator and is applied with fullmatch. Piecewise copies are not filtered by the content just read (R-COVER/copy-not-filtered-by-content). Every return of validate_h5ad follows the call of _validate_h5ad and returns its verdict (R-MUST/validation-runs). A tiling loop over several arrays takes its extent from the array of the current turn (R-TILE/extent-of-the-array).'),
+    'C17': ('back-fill provenance (shared with C01); parameter forwarding along the call chain; tree / parent-list agreement; superset tolerance of per-level options; HDF5 codec field map (rule of C15); provenance of the arguments of tree queries in the marker reconciliation; reaching definitions of the table the flatten union walks; agreement of validator-inspected keys with the reducers',
             'Also decides: the dropped level is back-filled through the '
             'parent table of that level; node tables are keyed by (level, '
-            'label); zipped lists are in lock-step. Settings the property depends on are bound at every call whose callee would otherwise fall back to a default. A selection call receives parents listed from the very tree it is given. Per-level options written for the full taxonomy are not rejected for naming a dropped level. The HDF5 writer stores each per-level field as it finds it in the records and does not derive one from the others over the output hierarchy. The run\'s tree is never asked about a node named by the marker table (R-PROV/tree-asked-about-its-own-nodes). The flatten union runs over the marker table as loaded (R-COVER/flatten-union).'),
+            'label); zipped lists are in lock-step. Settings the property depends on are bound at every call whose callee would otherwise fall back to a default. A selection call receives parents listed from the very tree it is given. Per-level options written for the full taxonomy are not rejected for naming a dropped level. The HDF5 writer stores each per-level field as it finds it in the records and does not derive one from the others over the output hierarchy. The run\'s tree is never asked about a node named by the marker table (R-PROV/tree-asked-about-its-own-nodes). The flatten union runs over the marker table as loaded (R-COVER/flatten-union). Keys the tree validator inspects are maintained by flatten and drop_level (R-AGREE/validator-vs-reducers).'),
     'C18': ('sign analysis of cell-count denominators; merge rules shared '
-            'with C09; parameter forwarding along the call chain; gene-list rule shared with C11; tree-version provenance (rule of C01); node identity of the tree code (rule of C10); rational normal form of the mean profile; sentinel and row-position rules (shared with C09); axis typing of the election (shared)',
+            'with C09; parameter forwarding along the call chain; gene-list rule shared with C11; tree-version provenance (rule of C01); node identity of the tree code (rule of C10); rational normal form of the mean profile; sentinel and row-position rules (shared with C09); axis typing of the election (shared); index-space typing of the transposition (rule of C13)',
             'Also decides: no division by a possibly-zero cell count; '
-            'worker buffers are each added once. Settings the property depends on are bound at every call whose callee would otherwise fall back to a default. The gene list a later stage hands to the reference-marker stage becomes positions of the reference gene table. Levels not voted on are inferred from the tree as stored in the reference file. The tree code never files a node under its label alone. The mean profile of a node is S / N of the summed statistics (R-ARITH/moments, rule of C11). The sentinel / row-position rules of C09 are shared. The axis typing of the election (leaf axis vs type axis) is shared.'),
+            'worker buffers are each added once. Settings the property depends on are bound at every call whose callee would otherwise fall back to a default. The gene list a later stage hands to the reference-marker stage becomes positions of the reference gene table. Levels not voted on are inferred from the tree as stored in the reference file. The tree code never files a node under its label alone. The mean profile of a node is S / N of the summed statistics (R-ARITH/moments, rule of C11). The sentinel / row-position rules of C09 are shared. The axis typing of the election (leaf axis vs type axis) is shared. The index-space typing of the on-disk transposition (rule of C13) is shared.'),
     'C19': ('library-level freshness of listed directories and scratch '
-            'file names; parameter forwarding along the call chain; existence-test order of the statistics-file search; creating write among the writes of an output; finaliser must-pass; must-pass of stale-output removal; census of directory creations in worker code and under scratch parameters',
+            'file names; parameter forwarding along the call chain; existence-test order of the statistics-file search; creating write among the writes of an output; finaliser must-pass; must-pass of stale-output removal; census of directory creations in worker code and under scratch parameters; dominance of creating opens over appending opens',
             'Also decides, per function: a listed directory was created '
             'under a unique name by the lister (or handed over whole); no '
-            'predictable file name directly under a scratch parameter. Settings the property depends on are bound at every call whose callee would otherwise fall back to a default. (two documented exceptions where a callee creates its own scratch directory). The recorded statistics path is tried before a same-named file beside the marker file. An output file that is appended to is first created or replaced by the stage. Objects that own a scratch directory release it in their finaliser on every normally returning path. Where a validated file of an earlier run is cleared, every normally returning path either writes the output or removes what was there. No directory is created by mkdir / makedirs in worker code or under a scratch parameter (R-FRESH/directories-only-by-mkdtemp).'),
+            'predictable file name directly under a scratch parameter. Settings the property depends on are bound at every call whose callee would otherwise fall back to a default. (two documented exceptions where a callee creates its own scratch directory). The recorded statistics path is tried before a same-named file beside the marker file. An output file that is appended to is first created or replaced by the stage. Objects that own a scratch directory release it in their finaliser on every normally returning path. Where a validated file of an earlier run is cleared, every normally returning path either writes the output or removes what was there. No directory is created by mkdir / makedirs in worker code or under a scratch parameter (R-FRESH/directories-only-by-mkdtemp). An append to an output file follows its creation on every path (R-FRESH/append-follows-create).'),
     'C20': ('value identity inside the sanitiser; ancestor walk of the '
             'exposure test; exception rendering of path-bearing messages; parameter forwarding along the call chain; module path relative on every path; use census of path-bearing strings; file-object names treated as paths; interprocedural propagation of path-valued arguments; census of the early answers of the exposure test',
             'Also decides: the replaced text is the word as it occurs, '
             'the replacement is a bare or package-relative name, and '
             'is_exposed tests every ancestor. Path-bearing messages are not raised as KeyError (repr-rendered). Settings the property depends on are bound at every call whose callee would otherwise fall back to a default. Every alternative of the recorded module path is relative to the package. A string with a path interpolated into it is only ever a raised or logged message. The .name of an open file object is judged as the path it was opened with. Path-valued arguments make the parameters they are bound to path-valued (propagated to a fixpoint). Is_exposed answers False early only where the walk over the ancestors ends (R-MUST/exposure-walks-ancestors).'),
-    'C01': ('must-pass-through of the failing verdicts of the pre-flight reconciliation; single-child exemption (rule of C08); sibling agreement of returned sequences; reaching-definition alias classes of records in the output writers',
-            "Also decides: the marker cache / taxonomy reconciliation can fail only after a parent of the run Single-child parents, the root included, are exempt from needing markers wherever the table is validated.'s tree was found without markers. No return of a function in the anchored modules is empty in one position next to positions that carry data while a sibling return fills it (R-AGREE/partially-empty-return). No output writer edits a record reached from the results it was handed (R-ALIAS/records-read-only)."),
-    'C03': ('parameter forwarding along the call chain; vote-counter capacity (rule of C02); capacity of the aggregated vote totals (rule of C02); polynomial identity of the requested number of candidates; falsy-default idiom; order of the two inheritance passes',
-            'Settings the property depends on are bound at every call whose callee would otherwise fall back to a default. The vote counter holds as many votes as there are iterations. Aggregated vote totals kept in a chosen integer type are sized from a sum of the summands. The election is asked for exactly n_runners_up + 1 candidates (R-PROV/runners-up-as-requested); no numeric setting is defaulted with `or <number>` (R-IDIOM/falsy-numeric-default). The downward correlation inheritance runs before the upward one (R-ORDER/correlation-inheritance).'),
+    'C01': ('must-pass-through of the failing verdicts of the pre-flight reconciliation; single-child exemption (rule of C08); sibling agreement of returned sequences; reaching-definition alias classes of records in the output writers; element type of cache positions used as a fancy index',
+            "Also decides: the marker cache / taxonomy reconciliation can fail only after a parent of the run Single-child parents, the root included, are exempt from needing markers wherever the table is validated.'s tree was found without markers. No return of a function in the anchored modules is empty in one position next to positions that carry data while a sibling return fills it (R-AGREE/partially-empty-return). No output writer edits a record reached from the results it was handed (R-ALIAS/records-read-only). No reader of the marker cache uses a position dataset as a fancy index without an integer type (R-ROLE/positions-as-stored)."),
+    'C03': ('parameter forwarding along the call chain; vote-counter capacity (rule of C02); capacity of the aggregated vote totals (rule of C02); polynomial identity of the requested number of candidates; falsy-default idiom; order of the two inheritance passes; symbolic identity of n_assignments along the call chain',
+            'Settings the property depends on are bound at every call whose callee would otherwise fall back to a default. The vote counter holds as many votes as there are iterations. Aggregated vote totals kept in a chosen integer type are sized from a sum of the summands. The election is asked for exactly n_runners_up + 1 candidates (R-PROV/runners-up-as-requested); no numeric setting is defaulted with `or <number>` (R-IDIOM/falsy-numeric-default). The downward correlation inheritance runs before the upward one (R-ORDER/correlation-inheritance). N_assignments is handed on unchanged along the election call chain; only choose_node clamps it, by the number of vote columns (R-FWD/candidates-unchanged).'),
     'C14': ('parameter forwarding along the call chain; jump-in-finally idiom; handler census around dispatches in the spawner closure',
             'Settings the property depends on are bound at every call whose callee would otherwise fall back to a default. No return / break / continue inside a finally block discards a worker failure. No handler around a dispatch absorbs the drain\'s error (R-HANDLER/dispatch-failure).'),
     'C06': ('cell-axis reduction scan of the glue code; memo-key completeness along the per-cell path; further reducers in the axis typing; pointer terms through array wrappers',
@@ -452,11 +452,11 @@ EXTRA = {
             'gene list; the gene list is applied whenever one is given; '
             'marker and mask files can be written when a direction has no '
             'entry and for a chunk of a single pair (findings F9, F10). Mean and variance of a node are S / N and (Q - S^2/N)/(N - 1) of the statistics summed over its leaves, compared as rational functions (R-ARITH/moments). The batch search of the on-disk transposition stops only after an end of the batch was recorded (R-COVER/batch-search).'),
-    'C12': ('provenance of the pair indices reported to the utility update; index-capacity rules over the re-shaping of the marker table',
+    'C12': ('provenance of the pair indices reported to the utility update; index-capacity rules over the re-shaping of the marker table; parameter dependence of sibling returns in selection functions',
             'Also decides: desperate pairs and filled slots are addressed '
             'by the pair\'s index in the marker table '
             '(taxonomy_idx_array[row]), and the column -> sign table is '
-            '{0: -1, 1: +1} in either spelling. Index arrays of the re-shaped marker table are not forced into the type of an input array (R-CAP/index-cast-to-input-type).'),
+            '{0: -1, 1: +1} in either spelling. Index arrays of the re-shaped marker table are not forced into the type of an input array (R-CAP/index-cast-to-input-type). The selection functions compute every output from the selection on every return (R-AGREE/returns-depend-alike).'),
 }
 
 
